@@ -191,6 +191,10 @@ func (r *SenderReport) Unmarshal(rawPacket []byte) error {
 	r.PacketCount = binary.BigEndian.Uint32(packetBody[srPacketCountOffset:])
 	r.OctetCount = binary.BigEndian.Uint32(packetBody[srOctetCountOffset:])
 
+	// start afresh: r may hold the result of an earlier decode
+	r.Reports = nil
+	r.ProfileExtensions = nil
+
 	offset := srReportOffset
 	for i := 0; i < int(h.Count); i++ {
 		rrEnd := offset + receptionReportLength
